@@ -391,7 +391,7 @@ func (p *jp) ws() {
 }
 
 func (p *jp) value(depth int) bool {
-	if depth > 200 {
+	if depth > 10000 { // the nesting limit of encoding/json
 		return false
 	}
 	p.ws()
